@@ -3,6 +3,7 @@
 #define VERIF_C11_SER_BIG_H
 
 #include "c11_big.h"
+#include "c11_lambda.h"
 
 namespace
 {
@@ -124,6 +125,44 @@ void gen_cache(splitmix &r, unsigned n)
   }
 }
 
+void gen_lambda(splitmix &r, unsigned n)
+{
+  // make sure the factory knows the eight ids (load<T> registers the kinds for T on first use)
+  { std::istringstream e; (void)serialize::lambda::load<i_mep>(e, L().regr.sset); }
+  { std::istringstream e; (void)serialize::lambda::load<team<i_mep>>(e, L().regr.sset); }
+  for (unsigned k(0); k < n; ++k)
+  {
+    const lam_case x(make_lambda(r));
+    const std::string tags("kind=" + u(unsigned(x.kind)));
+    pre("lam", k, tags);
+    bool sok(false);
+    const std::string bytes(lambda_bytes(*x.model, &sok));
+    std::string verdict("ok");
+    if (!sok) verdict = "bad:save-returned-false";
+    else
+    {
+      std::unique_ptr<basic_src_lambda_f> y;
+      std::istringstream in(bytes);
+      try
+      {
+        y = x.kind < 4 ? serialize::lambda::load<i_mep>(in, x.prob->sset)
+                       : serialize::lambda::load<team<i_mep>>(in, x.prob->sset);
+      }
+      catch (const std::exception &) { verdict = "bad:load-threw"; }
+      if (verdict == "ok")
+      {
+        const std::uint64_t ps(r.next());
+        if (!y) verdict = "bad:load-failed";
+        else if (!y->is_valid()) verdict = "bad:reloaded-object-fails-is_valid";
+        else if (predictions(*y, *x.prob, ps) != predictions(*x.model, *x.prob, ps))
+          verdict = "bad:reloaded-object-differs";
+        else if (lambda_bytes(*y) != bytes) verdict = "bad:resave-differs";
+      }
+    }
+    emit("lam", x.description, bytes, verdict, tags, symtab_of(x.prob->sset));
+  }
+}
+
 template<class W> void gen_big(std::uint64_t seed, unsigned n, W want)
 {
   const auto rs([&](unsigned k) { return splitmix(seed * 1000003ull + k); });
@@ -132,6 +171,7 @@ template<class W> void gen_big(std::uint64_t seed, unsigned n, W want)
   { auto r(rs(13)); if (want("pop")) gen_pop(r, n); }
   { auto r(rs(14)); if (want("summ")) gen_summ(r, n); }
   { auto r(rs(15)); if (want("cache")) gen_cache(r, n); }
+  { auto r(rs(16)); if (want("lam")) gen_lambda(r, n); }
 }
 
 }  // namespace
